@@ -198,9 +198,16 @@ def run_property(modname: str, tier: str = "quick", write_baseline=False) -> int
             continue
         printed.add(kf["id"])
         print(f"KNOWN-FINDING: property={prop} {kf['what']}")
+    vshown = {}
     for o, rfile, suffix in violations:
+        vshown[o.name] = vshown.get(o.name, 0) + 1
+        if vshown[o.name] > 2:
+            continue
         print(f"VIOLATION property={prop} replay={rfile}{suffix}")
         print(f"  obligation {o.name} [{o.kind}] path={o.path_sig} {o.detail}")
+    for nme, cnt in vshown.items():
+        if cnt > 2:
+            print(f"  ... obligation {nme}: {cnt - 2} more violating path(s), replay files in {replay_dir}")
     shown = {}
     for o in undecided:
         shown[o.name] = shown.get(o.name, 0) + 1
